@@ -96,6 +96,14 @@ theorem evalN_ty (e : Expr F) : ∀ (w : Ty) (st : FnState F) (v : Value F), (ev
     · cases h
   | call0 fn => intro w st v h; simp only [evalN] at h; exact chk_ty w _ v (by simpa using h)
   | callMany fn => intro w st v h; simp only [evalN] at h; exact chk_ty w _ v (by simpa using h)
+  | lam i e ih =>
+    intro w st v h
+    simp only [evalN] at h
+    split at h
+    · cases h
+    · split at h
+      · exact ih w (st.enter i) v h
+      · cases h
   | call1 fn a ih =>
     intro w st v h
     simp only [evalN] at h
@@ -254,6 +262,14 @@ theorem evalN_trap (ht : TblNoTrap ctx) (e : Expr F) : ∀ (w : Ty) (st : FnStat
     · simp
   | call0 fn => intro w st; simp only [evalN]; exact chk_trap w _ (callFn_trap ctx fn _ st)
   | callMany fn => intro w st; simp only [evalN]; exact chk_trap w _ (callFn_trap ctx fn _ st)
+  | lam i e ih =>
+    intro w st
+    simp only [evalN]
+    split
+    · simp
+    · split
+      · exact ih w (st.enter i)
+      · simp
   | call1 fn a ih =>
     intro w st
     simp only [evalN]
